@@ -162,6 +162,16 @@ def rules_c04(prop, repo):
             return v[0] == "call" and is_adder(v[1]) and len(v[2]) == 2 and strip(v[2][0]) == ("param", 1) and negated_other(v[2][1])
         ok = is_sub(rv)
         if not ok:
+            # one operator form forwarding to another (`self - &other`): the subtraction is what that one does with these operands
+            from core.terms import expand_call
+            e, hops = rv, 0
+            while not ok and hops < 3 and strip(e)[0] == "call" and strip(e)[1].name == "sub" and (strip(e)[1].get("trait") or "") == "core::ops::Sub":
+                e = expand_call(repo, strip(e), lambda cb: cb.name == "sub" and cb.impl_trait == "core::ops::Sub" and "crate::groups::G" in (cb.rec.get("impl_self") or ""))
+                if e is None:
+                    break
+                ok = is_sub(e)
+                hops += 1
+        if not ok:
             ok, _why = shared.forwards(repo, sb, is_sub, "gsub")
         R2.check(ok, "%s:sub" % prop, "G::sub is not self + (−other): %s" % show(rv, maxdepth=3)[:160], sb.file_line(), sb.rec["path"], sample={"sub": show(rv, maxdepth=3)[:120]})
     nb = F.bodies.get("<crate::groups::G<P> as core::ops::Neg>::neg")
